@@ -1003,7 +1003,119 @@ pub fn minimise_ros(sc: &RosScenario, key: &str, budget: usize) -> (RosScenario,
 // ---------------------------------------------------------------------------
 // campaign
 
+/// One mutation of an explicit run description that keeps it legal by construction: whole-stream
+/// phase shifts, suffix delays (distances only grow), instance costs toggled between 1 and the
+/// generated value, supply policy / phase tweaks.  `order[i]` maps the i-th arrival of the
+/// candidate to its index in `allowed`.
+fn mutate_scenario(
+    sc: &RosScenario,
+    allowed: &[Vec<u32>],
+    order: &[usize],
+    prep: &RosPrep,
+    rng: &mut Rng,
+) -> Option<(RosScenario, Vec<usize>)> {
+    let mut out = sc.clone();
+    let heads = sc.wl.heads();
+    if sc.arrivals.is_empty() {
+        return None;
+    }
+    let h = *rng.pick(&heads);
+    let (_, _, p) = sc.wl.supply.qdp();
+    match rng.below(8) {
+        0 => {
+            let dlt = rng.range(1, 4);
+            for a in out.arrivals.iter_mut().filter(|a| a.head == h) {
+                a.t += dlt;
+            }
+        }
+        1 => {
+            let first = out.arrivals.iter().filter(|a| a.head == h).map(|a| a.t).min()?;
+            let dlt = rng.range(1, 4).min(first);
+            if dlt == 0 {
+                return None;
+            }
+            for a in out.arrivals.iter_mut().filter(|a| a.head == h) {
+                a.t -= dlt;
+            }
+        }
+        2 => {
+            let idxs: Vec<usize> = (0..out.arrivals.len()).filter(|i| out.arrivals[*i].head == h).collect();
+            if idxs.is_empty() {
+                return None;
+            }
+            let from = out.arrivals[*rng.pick(&idxs)].t;
+            let dlt = rng.range(1, 5);
+            for a in out.arrivals.iter_mut().filter(|a| a.head == h && a.t >= from) {
+                a.t += dlt;
+            }
+        }
+        3 | 4 => {
+            let i = rng.index(out.arrivals.len());
+            let j = rng.index(out.arrivals[i].costs.len());
+            let max = allowed[order[i]][j];
+            out.arrivals[i].costs[j] = if out.arrivals[i].costs[j] == max { 1 } else { max };
+        }
+        5 => {
+            out.policy = match &sc.policy {
+                SupPolicy::EarlyThenLate { switch } => SupPolicy::EarlyThenLate {
+                    switch: if rng.chance(1, 2) { switch + 1 } else { switch.saturating_sub(1) },
+                },
+                _ => match rng.below(4) {
+                    0 => SupPolicy::AdaptiveWaste,
+                    1 => SupPolicy::Late,
+                    2 => SupPolicy::EarlyThenLate { switch: rng.range(0, 4) },
+                    _ => SupPolicy::Early,
+                },
+            };
+        }
+        6 => {
+            if p < 2 {
+                return None;
+            }
+            out.phase = (sc.phase + rng.range(1, p - 1)) % p;
+        }
+        _ => {
+            // align the first arrival of `h` with the first arrival of another stream
+            let other = *rng.pick(&heads);
+            let t_other = sc.arrivals.iter().filter(|a| a.head == other).map(|a| a.t).min()?;
+            let t_mine = sc.arrivals.iter().filter(|a| a.head == h).map(|a| a.t).min()?;
+            if t_other >= t_mine {
+                let dlt = t_other - t_mine;
+                for a in out.arrivals.iter_mut().filter(|a| a.head == h) {
+                    a.t += dlt;
+                }
+            } else {
+                let dlt = t_mine - t_other;
+                for a in out.arrivals.iter_mut().filter(|a| a.head == h) {
+                    a.t -= dlt;
+                }
+            }
+        }
+    }
+    // re-sort, carrying the mapping to the allowed costs along
+    let mut idx: Vec<usize> = (0..out.arrivals.len()).collect();
+    idx.sort_by(|a, b| {
+        (out.arrivals[*a].t, out.arrivals[*a].head, *a).cmp(&(out.arrivals[*b].t, out.arrivals[*b].head, *b))
+    });
+    let arrivals: Vec<SrcArrival> = idx.iter().map(|i| out.arrivals[*i].clone()).collect();
+    let new_order: Vec<usize> = idx.iter().map(|i| order[*i]).collect();
+    out.arrivals = arrivals;
+    // cheap re-validation of the touched stream against the tabulated curve
+    let times: Vec<u64> = out.arrivals.iter().filter(|a| a.head == h).map(|a| a.t).collect();
+    if let Some(adm) = prep.adm[h].as_ref() {
+        if times.last().copied().unwrap_or(0) + 2 > adm.scanned || adm.validate(&times).is_err() {
+            return None;
+        }
+    }
+    let total: u64 = out.arrivals.iter().map(|a| a.costs.iter().map(|x| *x as u64).sum::<u64>()).sum();
+    let last = out.arrivals.last().map(|a| a.t).unwrap_or(0);
+    let (q, _, pp) = sc.wl.supply.qdp();
+    out.time_cap = (last + (total + 2) * pp / q + 6 * pp + 10).min(last + 4000);
+    Some((out, new_order))
+}
+
 pub struct RosShared<'a> {
+    pub climb_steps: u64,
     pub prop: &'static str,
     pub root: u64,
     pub analyses: &'a [Analysis],
@@ -1088,18 +1200,12 @@ pub fn ros_item(sh: &RosShared, k: u64, acc: &mut Acc, note: &dyn Fn(&str)) {
     }
     let heads = wl.heads();
     let n_struct = heads.len() as u64;
-    let mut attained = vec![false; bounds.outcomes.len()];
-    for sidx in 0..(n_struct + sh.schedules) {
-        let mut srng = rng.split(&format!("sched/{}", sidx));
-        let structured = if sidx < n_struct { Some(heads[sidx as usize]) } else { None };
-        let sc = gen_ros_schedule(&wl, &prep, which, loose, &mut srng, &mut acc.counters, structured);
-        // generator self-check
-        if let Err(e) = ros_scenario_legal(&sc, None) {
-            // admissibility is checked against freshly tabulated curves there; a failure is ours
-            eprintln!("HARNESS-ERROR: generated ROS scenario is not legal: {}", e);
-            std::process::exit(2);
-        }
-        let res = run_ros(&sc, &bounds);
+    let n_out = bounds.outcomes.len();
+    let mut attained = vec![false; n_out];
+    // evaluate one explicit scenario: run, account, report; returns per analysed entity the
+    // objective of the guided search: largest observed response - bound
+    let eval = |sc: &RosScenario, sidx: u64, acc: &mut Acc, attained: &mut Vec<bool>| -> Vec<i64> {
+        let res = run_ros(sc, &bounds);
         if let Err(e) = supply_legal(&res.bits, &wl.supply, sc.phase) {
             eprintln!("HARNESS-ERROR: reservation stub left its model ({}): {}", wl.supply, e);
             std::process::exit(2);
@@ -1123,6 +1229,7 @@ pub fn ros_item(sh: &RosShared, k: u64, acc: &mut Acc, note: &dyn Fn(&str)) {
         sh.fps.insert(res.fingerprint);
         acc.digest_add(res.fingerprint ^ res.max_resp.iter().fold(0u64, |a, r| a.wrapping_mul(31).wrapping_add(*r)));
         let mut nontrivial = false;
+        let mut objective = vec![i64::MIN; n_out];
         for (oi, (e, o)) in bounds.outcomes.iter().enumerate() {
             if let Outcome::Ok(b) = o {
                 let (obs, delayed) = match e {
@@ -1135,6 +1242,7 @@ pub fn ros_item(sh: &RosShared, k: u64, acc: &mut Acc, note: &dyn Fn(&str)) {
                 if delayed {
                     nontrivial = true;
                 }
+                objective[oi] = obs as i64 - *b as i64;
                 if obs == *b {
                     acc.counters.inc("probe.bound_attained");
                     attained[oi] = true;
@@ -1145,14 +1253,79 @@ pub fn ros_item(sh: &RosShared, k: u64, acc: &mut Acc, note: &dyn Fn(&str)) {
             acc.counters.inc("runs_nontrivial");
             sh.nontrivial.insert(res.fingerprint);
         }
-        acc.sample((k, sidx), || sample_json(&sc, &bounds, &res));
+        acc.sample((k, sidx), || sample_json(sc, &bounds, &res));
         if let Some(v) = &res.violation {
+            for o in objective.iter_mut() {
+                *o = (*o).max(1);
+            }
             acc.report(Report {
                 order: (k, sidx),
-                key: ros_finding_key(&sc, v),
-                summary: ros_summary(&sc, v),
-                replay: ros_replay_text(sh.prop, &sc, v, &format!("seed={} input={} schedule={}", sh.root, k, sidx)),
+                key: ros_finding_key(sc, v),
+                summary: ros_summary(sc, v),
+                replay: ros_replay_text(sh.prop, sc, v, &format!("seed={} input={} schedule={}", sh.root, k, sidx)),
             });
+        }
+        objective
+    };
+    // random + structured schedules; the best one per analysed entity seeds the guided search
+    let mut seeds: Vec<Option<(i64, RosScenario)>> = vec![None; n_out];
+    for sidx in 0..(n_struct + sh.schedules) {
+        let mut srng = rng.split(&format!("sched/{}", sidx));
+        let structured = if sidx < n_struct { Some(heads[sidx as usize]) } else { None };
+        let sc = gen_ros_schedule(&wl, &prep, which, loose, &mut srng, &mut acc.counters, structured);
+        // generator self-check
+        if let Err(e) = ros_scenario_legal(&sc, None) {
+            // admissibility is checked against freshly tabulated curves there; a failure is ours
+            eprintln!("HARNESS-ERROR: generated ROS scenario is not legal: {}", e);
+            std::process::exit(2);
+        }
+        let obj = eval(&sc, sidx, acc, &mut attained);
+        if sh.climb_steps > 0 {
+            for oi in 0..n_out {
+                if obj[oi] > i64::MIN && seeds[oi].as_ref().map(|s| obj[oi] > s.0).unwrap_or(true) {
+                    seeds[oi] = Some((obj[oi], sc.clone()));
+                }
+            }
+        }
+    }
+    // guided adversary: hill-climb on the explicit run description (section 3.5), one climb per
+    // analysed entity whose bound was not attained by the schedules above
+    let mut sidx = n_struct + sh.schedules;
+    let targets: Vec<usize> = (0..n_out).filter(|oi| !attained[*oi] && seeds[*oi].is_some()).collect();
+    let per_target = if targets.is_empty() {
+        0
+    } else {
+        (2 * sh.climb_steps / targets.len() as u64).max(sh.climb_steps / 2)
+    };
+    for oi in targets {
+        let (obj0, seed) = seeds[oi].take().unwrap();
+        let mut crng = rng.split(&format!("climb/{}", oi));
+        let mut cur = seed;
+        let mut cur_obj = obj0;
+        let allowed: Vec<Vec<u32>> = cur.arrivals.iter().map(|a| a.costs.clone()).collect();
+        let mut order: Vec<usize> = (0..cur.arrivals.len()).collect();
+        for _ in 0..per_target {
+            if cur_obj >= 0 {
+                break; // attained (or violated): nothing more to gain for this entity
+            }
+            let cand = match mutate_scenario(&cur, &allowed, &order, &prep, &mut crng) {
+                Some(c) => c,
+                None => continue,
+            };
+            acc.counters.inc("fault.guided_mutation_steps");
+            let obj = eval(&cand.0, sidx, acc, &mut attained)[oi];
+            sidx += 1;
+            if obj >= cur_obj {
+                if obj > cur_obj {
+                    acc.counters.inc("probe.guided_search_improved");
+                    if obj == 0 {
+                        acc.counters.inc("probe.guided_search_attained_bound");
+                    }
+                }
+                cur = cand.0;
+                order = cand.1;
+                cur_obj = obj;
+            }
         }
     }
     for (oi, (_, o)) in bounds.outcomes.iter().enumerate() {
@@ -1172,15 +1345,16 @@ pub fn run_ros_property(opt: &Options, prop: &'static str) -> i32 {
     } else {
         &[Analysis::Rr, Analysis::Bw]
     };
-    let (inputs, schedules) = if opt.thorough() {
-        (opt.scaled(if prop == "C05" { 3_000_000 } else { 1_500_000 }), 60u64)
+    let (inputs, schedules, climb_steps) = if opt.thorough() {
+        (opt.scaled(if prop == "C05" { 2_500_000 } else { 1_200_000 }), 50u64, 40u64)
     } else {
-        (opt.scaled(if prop == "C05" { 200_000 } else { 100_000 }), 20u64)
+        (opt.scaled(if prop == "C05" { 160_000 } else { 80_000 }), 20u64, 10u64)
     };
     let fps = Distinct::new(30);
     let nontrivial = Distinct::new(30);
     let inputs_fp = Distinct::new(26);
     let sh = RosShared {
+        climb_steps,
         prop,
         root: opt.seed,
         analyses,
